@@ -21,6 +21,7 @@ MOD = 'synapgrad.nn.modules.Module'
 SEQ = 'synapgrad.nn.modules.Sequential'
 A = P.atom
 _ids = [1000]
+WRITES = []         # (object name, attribute) for every attribute assignment on a module / parameter object of the world during the current evaluation
 
 
 def _next_id():
@@ -53,6 +54,7 @@ class PObj:
         return attr in ('requires_grad', 'size', 'data', 'grad', '_grad', 'shape', 'zero_')
 
     def pe_setattr(self, pe, attr, value, stmt, env, func, depth):
+        WRITES.append((self.name, attr))
         if attr in ('requires_grad', '_requires_grad'):
             self.flag_writes.append(value)
             self.requires_grad = value
@@ -112,6 +114,7 @@ class MObj:
         return attr in self.attrs or self.world.model.find_method(self.pe_cls, attr) is not None
 
     def pe_setattr(self, pe, attr, value, stmt, env, func, depth):
+        WRITES.append((self.name, attr))
         # attribute assignment goes through Module.__setattr__ (the code under analysis) - except inside __setattr__'s own helpers, which use object.__setattr__
         sa = self.world.model.find_method(self.pe_cls, '__setattr__')
         if sa is not None and depth < pe.max_depth + 2:
@@ -202,6 +205,7 @@ class World:
         return PE(self.model, call_hook=self.hook, atoms_not_none=True, max_depth=8, **kw)
 
     def run(self, obj, method, args=(), kw=None, max_paths=32):
+        del WRITES[:]
         f = self.model.find_method(obj.pe_cls, method)
         if f is None:
             raise Incomplete('%s has no method %s' % (obj.pe_cls.qualname, method))
@@ -241,7 +245,7 @@ def check_world(model, R, P_='C12', rules=('ONCE', 'MODE', 'ORDER', 'REG', 'SEQ'
                 R.ob(rule, f.qualname, 'parameters() of a tree with a shared parameter and a shared submodule = %s' % _names(got), ok,
                      'parameters() must list own parameters first, then every submodule\'s in registration order, each object once (expected %s): a shared parameter reported twice is '
                      'double-counted by num_params and updated twice per optimizer step' % _names(w.params), f.loc)
-                writes = [k for k, v, st in o.stores if not k.startswith(('w.', 'b.', 'aw.', 'cw.', 'bw.'))]
+                writes = ['%s.%s' % x for x in WRITES]        # attribute assignments on the modules / parameters of the tree (helper objects of the call are not state)
                 R.ob(rule, f.qualname, 'parameters() keeps no state on the modules: %s' % (writes or 'no writes'), not writes,
                      'a parameter list cached on the module is not invalidated when a descendant registers / replaces a parameter later', f.loc)
             for kwargs, sel, tag in (({}, lambda p: True, 'all'), ({'trainable': True}, lambda p: p.requires_grad, 'trainable'), ({'non_trainable': True}, lambda p: not p.requires_grad, 'non-trainable')):
@@ -272,7 +276,7 @@ def check_world(model, R, P_='C12', rules=('ONCE', 'MODE', 'ORDER', 'REG', 'SEQ'
                     continue
                 flags = {m.name: m.attrs.get('training') for m in w.modules}
                 ok = all(v is val for v in flags.values()) and o.value is w.root
-                other = [k for k, v, st in o.stores if not k.endswith('.training')]
+                other = ['%s.%s' % x for x in WRITES if x[1] != 'training']
                 R.ob(rule, f.qualname, '%s(): training flags %s, returns %s' % (name, flags, getattr(o.value, 'name', o.value)), ok and not other,
                      '%s() must set the flag of every module of the tree to %s (whatever it was), change nothing else and return self' % (name, val), f.loc)
             except Incomplete as u:
@@ -437,6 +441,7 @@ def zero_grad_outcome(model, qualname):
         f, outs = w.run(w.root, 'zero_grad')
         params = w.params
     else:
+        del WRITES[:]
         ocls = model.cls(qualname.rsplit('.', 1)[0])
         opt = MObj(w, 'opt', ocls, initialised=False)
         params = [PObj('p0', True), PObj('p1', False), PObj('p2', True)]
@@ -447,7 +452,7 @@ def zero_grad_outcome(model, qualname):
         return False, 'paths: %s' % [(o.kind, o.conds[:2]) for o in outs][:3]
     got = {p.name: p.zeroed for p in params}
     want = {p.name: (1 if p.requires_grad else 0) for p in params}
-    other = [k for k, v, st in outs[0].stores]
+    other = ['%s.%s' % x for x in WRITES]
     flags = [p.name for p in params if p.flag_writes]
     return got == want and not other and not flags, 'zero_() calls %s%s%s' % (got, ', other writes %s' % other if other else '', ', requires_grad written on %s' % flags if flags else '')
 
